@@ -2124,6 +2124,9 @@ class ReplayTransactions(Algo):
         timestamps = all_transactions.index.get_level_values("Date")
         transactions = all_transactions[(timestamps > start) & (timestamps <= end)]
         for (_, security), transaction in transactions.iterrows():
+            # (a child declared by name only, or with lazy_add, exists from its
+            # first trade on - as it does when traded via allocate/transact)
+            target._create_child_if_needed(security)
             c = target[security]
             c.transact(transaction["quantity"], price=transaction["price"], update=False)
 
@@ -2172,6 +2175,9 @@ class SimulateRFQTransactions(Algo):
         transactions = self.model(rfqs, target)
 
         for (_, security), transaction in transactions.iterrows():
+            # (a child declared by name only, or with lazy_add, exists from its
+            # first trade on - as it does when traded via allocate/transact)
+            target._create_child_if_needed(security)
             c = target[security]
             c.transact(transaction["quantity"], price=transaction["price"], update=False)
 
